@@ -284,7 +284,7 @@ func VerifNonceInjective() {
 // parameter), which cannot see anything that depends on the real constants. Here the loop runs as Decrypt runs it,
 // with 65 552-byte ciphertext segments: an authentic document of one full segment followed by a short last one is
 // cut so that only 1..16 bytes of the last segment remain (or 1..17 arbitrary bytes are appended to a one-segment
-// document, or the only segment loses its last 1..17 bytes): the stream must not end cleanly, and what was released
+// document, or the only segment loses its last 1..17 bytes, or the whole body is 1..16 bytes long): the stream must not end cleanly, and what was released
 // is a prefix of the plaintext. Segment contents are concrete (the ideal AEAD compares them), the tail is symbolic.
 //
 //verif:harness prop=C02 name=real_size_tail threads=2 sched=delay preempt=0 unwind=40 race=off witness=lenient
@@ -297,7 +297,7 @@ func VerifRealSizeTail() {
 	pt0 := make([]byte, S)
 	ct0 := bytes.Repeat([]byte{0x5a}, S+SegmentOverhead)
 	var X, plain []byte
-	mode := zzverif.Choose("mode", 3)
+	mode := zzverif.Choose("mode", 5)
 	t := 1 + zzverif.Choose("tail_len", 17)
 	// native replay: the segments are really sealed (the engine's ideal AEAD is not there)
 	seal := func(pt []byte, num uint32, last bool) []byte {
@@ -332,6 +332,21 @@ func VerifRealSizeTail() {
 		vAuthentic = append(vAuthentic, vSealed{nonce: vNonce(fk.noncePrefix, 0, true), ct: ct0, pt: pt0})
 		plain = pt0
 		X = append([]byte{}, ct0[:len(ct0)-t]...)
+	case 3, 4: // a short one-segment document (one byte of plaintext) of which only the first 1..16 bytes remain (3),
+		// or whose body was replaced by 1..16 arbitrary bytes (4): a body shorter than a tag is never a segment
+		zzverif.Assume(t <= 16)
+		pt1 := zzverif.Bytes("pt1", 1)
+		ct1 := zzverif.Bytes("ct1", 17)
+		if !zzverif.Symbolic() {
+			ct1 = seal(pt1, 0, true)
+		}
+		vAuthentic = append(vAuthentic, vSealed{nonce: vNonce(fk.noncePrefix, 0, true), ct: ct1, pt: pt1})
+		plain = pt1
+		if mode == 3 {
+			X = append([]byte{}, ct1[:t]...)
+		} else {
+			X = zzverif.Bytes("junk", t)
+		}
 	}
 	pr, pw := io.Pipe()
 	go processSegments(&vTReader{data: X, failAt: -1, split: 0}, pw, fk.DecryptSegment, SegmentSize+SegmentOverhead)
